@@ -276,11 +276,48 @@ def run(tier):
     # a rejection must not depend on the same text having been seen just before
     rej = [({"fam": "bad_" + fam, "text": text}, mask, text) for (fam, text, m_, pl, mask, vb), r in zip(meta, res) if pl == "alone" and "crash" not in r and r["rc"] != 0 and fam != "hibyte"]
     stats["rejected_resubmitted_ok"] = enc.retry_rejected(v, binary, rej if full else rnd.sample(rej, min(len(rej), 4000)))
+    # ... nor on HOW the line reaches the assembler: a sample of the rejected lines again under chunk fitting (at a position where a
+    # valid instruction would be padded), through the counting entry point (chunk size 8 and 0), on a library-managed buffer at a far
+    # offset, and written with CRLF, leading tab and a trailing comment - "at whatever position in the program and in every mode"
+    oth = rej if full else rnd.sample(rej, min(len(rej), 3000))
+    ocases, ometa = [], []
+    for (cinfo, mask, text) in oth:
+        hx_ = common.hx(text)
+        opts = ["opt 0 mov %s" % mask[0], "opt 0 swap %s" % mask[1], "opt 0 nobase %s" % mask[2]]
+        variants = {
+            "fit": ["new 0 ext 256 H 0xcc"] + opts + ["chunk 0 16", "setoff 0 15", "asm 0 %s" % hx_, "dump 0 15 80"],
+            "cnt8": ["new 0 ext 256 H 0xcc"] + opts + ["setoff 0 15", "cnt 0 8 %s" % hx_, "dump 0 15 80"],
+            "cnt0": ["new 0 ext 256 H 0xcc"] + opts + ["setoff 0 15", "cnt 0 0 %s" % hx_, "dump 0 15 80"],
+            "far": ["new 0 int"] + opts + ["asm 0 %s" % common.hx("nop"), "setoff 0 70001", "asm 0 %s" % hx_, "dump 0 0 1"],
+            "dress": ["new 0 ext 256 H 0xcc"] + opts + ["setoff 0 15", "asm 0 %s" % common.hx("\t" + text + " ; c\r\n"), "dump 0 15 80"],
+        }
+        for k in rnd.sample(sorted(variants), 2):
+            if k == "dress" and (";" in text or cinfo["fam"] in ("bad_hiseq", "bad_ctlbyte", "bad_junkprefix", "bad_junkvalid")):
+                continue  # (a ';' inside the bad line, or junk in front, would change what the added decoration means)
+            ocases.append(variants[k])
+            ometa.append((cinfo, mask, text, k))
+    ores = common.run_cases(binary, ocases, tag="c10o")
+    stats["rejected_other_entry_points_ok"] = 0
+    for (cinfo, mask, text, k), cmds, r in zip(ometa, ocases, ores):
+        v.count()
+        case = dict(cinfo)
+        case.update({"key": "%s via %s [%s]: %r" % (cinfo["fam"], k, mask, text), "combo": mask, "script": cmds})
+        if r["crash"]:
+            v.violation(case, r["crash"]["sig"], r["crash"]["stderr"][-800:])
+            continue
+        a = r["records"][-2].split()
+        d = r["records"][-1].split()[1]
+        if a[1] == "0":
+            v.violation(case, "accepted-should-reject", "via %s: %s" % (k, " ".join(a)))
+        elif k != "far" and d.replace("cc", "") != "":
+            v.violation(case, "rejected-but-emitted-code", "via %s: %s" % (k, d[:60]))
+        else:
+            stats["rejected_other_entry_points_ok"] += 1
     v.cov["rule"] = ("(i) every spec mnemonic x every operand-kind tuple over {scalar reg, xmm, ymm, memory, immediate} with 0-4 operands (781 tuples); a tuple is 'not defined in x86-64' iff nasm rejects ALL its "
                      "instantiations (live referee, %d lines this run), then instantiated for the library; (ii) every one-character edit of every register name that is lexically a name and not a register/keyword, in "
                      "register, memory-base and index positions; (iii) scales 0,3,5,6,7,9,10,16,42 in both factor orders; the stack pointer as scaled index, as index of itself, with every base; sums of 2-4 register / scaled-register / displacement terms in any order with repeated registers that contain an invalid scale or a scaled stack pointer (nasm-refereed); 8/16-bit, MMX, XMM and YMM registers as base or index and base/index of different widths; (iv) bracket / comma / "
                      "operand-after-immediate / empty-operand / unknown-mnemonic syntax errors; (v) bytes 0x7f-0xff, byte order marks and UTF-8 sequences at line start / between tokens / line end, and control bytes 0x01-0x1f (except tab, CR, LF) at positions of 8 template lines, printable non-token characters inside mnemonics and register names; (vi) lines of (i)-(iv) behind 1-3 junk characters (every printable non-letter except ';', '%%' and ':'). Each alone and first/middle/last in a program with valid neighbours, "
-                     "option combos sampled. Oracle: rc == EXIT_FAILURE and no byte at or after the rejected line's start differs from the prefill" % nnasm)
+                     "option combos sampled; a sample again under chunk fitting, through the counting entry point (chunk size 8 and 0), on a library buffer at a far offset, and with leading tab / trailing comment / CRLF. Oracle: rc == EXIT_FAILURE and no byte at or after the rejected line's start differs from the prefill" % nnasm)
     v.cov["exhaustive"] = False
     v.cov.update(stats)
     return v.finish(None, len(undef) > 10000 and stats["bad_lines"] > 20000, "universe too small: %r" % {k: stats[k] for k in stats if k != "by_family"})
